@@ -660,6 +660,21 @@ def run(ctx):
         if prec == fm.p and rnd is None:
             rnd = "d"
         m2f_cases.append((fmt, rng.choice("FFT"), "fin", rng.randint(0, 1), man, exp, prec, rnd, True, ("prec=",) + tags, None))
+        if man and rnd in (None, "n"):
+            # which of mpf2float's otherwise dead loops does this input reach?  (independent re-enactment)
+            _s, m_, e_, bc_ = lm._normalize(0, lm.MPZ(man), exp, man.bit_length(), prec, "n")
+            if V.float_subexp[fmt] <= e_ + bc_ <= V.float_maxexp[fmt]:
+                big = int(V.float_max[fmt])
+                shifted = 0
+                while m_ > big:
+                    m_ >>= 1
+                    e_ += 1
+                    shifted += 1
+                ctx.count("m2f:prec=:while-man>largest-loop:" + ("taken" if shifted else "not-taken"))
+                with warnings.catch_warnings():
+                    warnings.simplefilter("ignore")
+                    if np.isinf(np.ldexp(real.dtypes[fmt](int(m_)), e_)):
+                        ctx.count("m2f:prec=:inf-retry-loop:entered")
     # specials and zero
     for fmt in FMTS:
         for flag in ("F", "T", "U"):
@@ -883,7 +898,10 @@ def check_call_clause(ctx, fm, m, im, item):
     zero_got = got_bits is not None and (got_bits & (fm.signbit - 1)) == 0
     sign_ok = got_bits is not None and (got_bits & fm.signbit) == (want & fm.signbit)
     sub_in = any(0 < (b & (fm.signbit - 1)) < fm.minnormalbits for b in m["args"])
-    if kw in ("A", "U") and cls.startswith("subnormal") and zero_got and sign_ok and (demand == "exact" or abs(exact) >= fm.min_sub):
+    # unspecified keyword but the result was flushed: any value below the smallest normal whose correct result is
+    # non-zero (a subnormal, or the smallest normal for the sliver just below it) comes back as zero
+    if kw in ("A", "U") and zero_got and sign_ok and abs(exact) < fm.min_normal and (want & (fm.signbit - 1)) != 0 \
+            and (demand == "exact" or abs(exact) >= fm.min_sub):
         ctx.violation(SIG_UNSPEC, f"{fm.name}: {m['fn']} through vectorize_with_mpmath with flush_subnormals unspecified maps a subnormal result to zero: {replay}",
                       replay, broken_item=item)
         return
@@ -896,7 +914,8 @@ def check_call_clause(ctx, fm, m, im, item):
         if gm <= fm.minnormalbits and abs(gm * fm.min_sub - abs(exact)) < fm.min_sub:
             ctx.count("call:subnormal-inexact-result:differs-from-RNE(permitted)")
             return
-    sig = f"backend-call:{m['fn']}:kw={kw}:{cls}-result-wrong" + (":subnormal-input" if sub_in else "")
+    requested = kw == "T" or (kw.startswith("I") and int(kw[1:]) != 0)
+    sig = f"backend-call:{cls}-result-wrong" + (":flush-requested" if requested else "") + (":subnormal-input" if sub_in else "")
     ctx.violation(sig, f"{fm.name}: {m['fn']} through vectorize_with_mpmath (flush kw {kw}) returns {im}, property demands bits {want} [{cls}]",
                   replay, broken_item=item)
 
